@@ -71,7 +71,11 @@ def run(ctx, res):
     specs = corpus() + [gen(ctx) for _ in range(ctx.n(300, 6000))]
     def nt(s, impl):
         return (not s["ring"]["resolved"]) or (len(impl["updates"]) >= 3 and len({u for u, _ in impl["updates"]}) >= 2)
-    out = sc.run_cases(specs, res, [oracle], nontrivial=nt)
+    def c01_known(sp, impl):
+        f = c01.oracle(sp, impl)
+        return ("C01:" + f[2]) if (f and f[2] is not None) else None
+
+    out = sc.run_cases(specs, res, [oracle], nontrivial=nt, exclude=c01_known)
     for s, impl, m in out:
         res.count("ring_resolved", s["ring"]["resolved"])
         res.count("ring_mode", s["ring"]["mode"])
